@@ -525,14 +525,27 @@ func TestProp_Listener(t *testing.T) {
 					a = nodes[rapid.SampledFrom(names()).Draw(t, "who")].a
 				}
 				self := vkit.MintLeaf(nil, vkit.LeafSpec{Pub: a.CertPub, SKI: a.CertPkix, NB: time.Now().Add(-time.Minute), NA: time.Now().Add(time.Minute), SelfSign: a.CertPriv, IsCA: true, DNS: []string{nodeenrollment.CommonDnsName}})
-				cli := &vkit.AdvClient{NextProtos: vkit.FetchProtos(a.Request()), Chain: [][]byte{self}, Key: a.CertPriv}
+				// the client may announce application protocols of its own around the request
+				list := vkit.FetchProtos(a.Request())
+				shape := rapid.SampledFrom([]string{"chunks-only", "chunks-only", "app-protocol-first", "app-protocols-around", "app-protocol-between"}).Draw(t, "fetchAlpnShape")
+				switch shape {
+				case "app-protocol-first":
+					list = append([]string{rapid.SampledFrom([]string{"x-application-proto", "h2", "base"}).Draw(t, "appProto")}, list...)
+				case "app-protocols-around":
+					list = append(append([]string{"x-application-proto"}, list...), "h2", "another")
+				case "app-protocol-between":
+					if len(list) >= 2 {
+						list = append(append(append([]string(nil), list[:1]...), "x-application-proto"), list[1:]...)
+					}
+				}
+				cli := &vkit.AdvClient{NextProtos: list, Chain: [][]byte{self}, Key: a.CertPriv}
 				res := cli.Handshake(rig.Addr)
 				outs := rig.Sync()
 				if res.Conn != nil {
 					defer res.Conn.Close()
 				}
-				hist = append(hist, "fetch-client")
-				rec.Case("fetch-client", fmt.Sprint(len(hist)), false, nil)
+				hist = append(hist, "fetch-client("+shape+")")
+				rec.Case("fetch-client/"+shape, fmt.Sprint(len(hist), shape), shape != "chunks-only", nil)
 				for _, o := range outs {
 					if o.Conn != nil {
 						o.Conn.Close()
